@@ -123,13 +123,15 @@ func genE2E(r *Rng) E2EReplay {
 			for _, e := range evs {
 				hdr -= rpc.VC01LogEventSize(toApi(e))
 			}
-			switch r.Intn(3) {
+			switch r.Intn(4) {
 			case 0:
 				body = body[:hdr+r.Intn(len(body)-hdr+1)]
 			case 1:
 				body[hdr-1] += byte(r.Range(1, 3))
 			case 2:
 				body = body[:r.Intn(hdr+1)]
+			case 3:
+				body[hdr-1] -= byte(r.Range(1, len(evs))) // fewer declared than carried: the rest is ignored
 			}
 			rp.Reqs = append(rp.Reqs, Req{Kind: "raw", Body: body})
 		}
@@ -301,10 +303,10 @@ wait:
 			break wait
 		case <-tick.C:
 			// a write loop that never ends fills the disk: the cases here store a few KB
-			if sz := dirSize(scratch); sz > 256<<20 {
+			if sz, nf := dirSize(scratch); sz > 256<<20 || nf > 50000 {
 				cmd.Process.Kill()
 				<-done
-				how = fmt.Sprintf("did not finish: it had written %d MB to its data directory when it was stopped (runaway write)", sz>>20)
+				how = fmt.Sprintf("did not finish: it had written %d MB in %d files to its data directory when it was stopped (runaway write)", sz>>20, nf)
 				break wait
 			}
 		}
@@ -339,15 +341,17 @@ wait:
 	return res, inflight, how, nil
 }
 
-func dirSize(d string) int64 {
+func dirSize(d string) (int64, int) {
 	var n int64
+	files := 0
 	filepath.Walk(d, func(_ string, fi os.FileInfo, err error) error {
 		if err == nil && !fi.IsDir() {
 			n += fi.Size()
+			files++
 		}
 		return nil
 	})
-	return n
+	return n, files
 }
 
 // runIsolated runs all jobs in child processes and returns one result per job
@@ -358,36 +362,69 @@ func runIsolated(c *Ctx, jobs map[int]Replay) (map[int]childRes, error) {
 		todo[i] = rp
 	}
 	for round := 0; len(todo) > 0 && round < 20; round++ {
-		res, inflight, how, err := runChild(c, todo, 5*time.Minute)
+		res, inflight, how, err := runChild(c, todo, 150*time.Second)
 		if err != nil {
 			return nil, err
 		}
+		// a case that reports a harness error next to siblings (e.g. "too many open files" while a sibling runs
+		// away) is not final: it is re-run alone like the cases that were in flight
 		for i, r := range res {
+			if r.Err != "" && len(todo) > 1 {
+				inflight = append(inflight, i)
+				continue
+			}
 			all[i] = r
 			delete(todo, i)
 		}
-		if how == "" {
+		if how == "" && len(inflight) == 0 {
 			break
 		}
-		// the child died or hung: pin down which of the cases in flight does it, alone
-		for _, i := range inflight {
-			r1, _, how1, err := runChild(c, map[int]Replay{i: todo[i]}, 2*time.Minute)
-			if err != nil {
-				return nil, err
+		if how == "" {
+			how = "finished, with harness errors in some cases"
+		}
+		// the child died or hung: pin down which of the cases in flight does it, each alone in its own child
+		type one struct {
+			r   map[int]childRes
+			how string
+			err error
+		}
+		ones := make([]one, len(inflight))
+		Parallel(len(inflight), 8, func(k int) {
+			i := inflight[k]
+			r1, _, how1, err := runChild(c, map[int]Replay{i: todo[i]}, 75*time.Second)
+			ones[k] = one{r1, how1, err}
+		})
+		for k, i := range inflight {
+			if ones[k].err != nil {
+				return nil, ones[k].err
 			}
-			if r, ok := r1[i]; ok && how1 == "" {
+			if r, ok := ones[k].r[i]; ok && ones[k].how == "" {
 				all[i] = r
 			} else {
 				cls := "server-crashed"
-				if strings.HasPrefix(how1, "did not finish") {
+				if strings.HasPrefix(ones[k].how, "did not finish") {
 					cls = "request-did-not-return"
 				}
-				all[i] = childRes{Idx: i, Coq: dummyCoq, Stream: "e2e", Oracle: &Violation{Class: cls, Detail: "running this case alone, the process hosting the server " + how1}}
+				all[i] = childRes{Idx: i, Coq: dummyCoq, Stream: "e2e", Oracle: &Violation{Class: cls, Detail: "running this case alone, the process hosting the server " + ones[k].how}}
 			}
 			delete(todo, i)
 		}
 		if len(inflight) == 0 {
 			return nil, fmt.Errorf("child %s with no case in flight", how)
+		}
+		// a case that kills or hangs the server on its own is the verdict: the remaining cases are not run
+		confirmed := false
+		for _, i := range inflight {
+			if o := all[i].Oracle; o != nil && (o.Class == "server-crashed" || o.Class == "request-did-not-return") {
+				confirmed = true
+			}
+		}
+		if confirmed {
+			c.Note("cases_not_run_after_crash", len(todo))
+			for i := range todo {
+				all[i] = childRes{Idx: i, Stream: "skipped"}
+			}
+			return all, nil
 		}
 	}
 	if len(todo) > 0 {
@@ -471,6 +508,9 @@ func main() {
 		}
 		for i := range jobs {
 			if jobs[i].E2E != nil {
+				if isoRes[i].Stream == "skipped" {
+					continue
+				}
 				cs, err := fromChild(isoRes[i], jobs[i])
 				res[i], errs[i] = &cs, err
 			}
